@@ -24,7 +24,7 @@ func init() {
 			"proceeds to rate limiting. The single exception is the FORMERR answer for a malformed ECS option, which " +
 			"C05 demands and which is written before any access decision.",
 		NotCovered: "what the urlfilter engines behind IsBlockedHost / blockedHostsEng match; effects inside third-party libraries reached from the access decision.",
-		Rules: map[string]string{"C10-R10": "codecs return a nil sub-message only for a nil input; access.Global keeps the whole configured subnet list and IsBlockedIP is a membership test on it",
+		Rules: map[string]string{"C10-R11": "early (default) returns of the profile converters are guarded only by nil / Enabled tests of the input, never by its contents", "C10-R10": "codecs return a nil sub-message only for a nil input; access.Global keeps the whole configured subnet list and IsBlockedIP is a membership test on it",
 			"C10-R1": "decision tables of isBlockedByNets, matchASNs, IsBlocked, isBlockedByAccess",
 			"C10-R2": "Wrap closure: location stored before the decision; blocked edge silent; other edge proceeds",
 			"C10-R4": "question names are normalised before they are matched against access rules",
@@ -52,6 +52,10 @@ func runC10(c *an.Ctx) {
 		c.Und("C10-R10", "optional sub-messages are nil only when absent", token.NoPos, "only %d nil returns found", n)
 	}
 	c10Global(c)
+	// ---- R11: converters of profile settings return a default early only for absent or disabled input
+	if n := sharedCodecGuards(c, "C10-R11", nil, "backendpb.", "profiledb/internal/filecachepb."); n < 5 {
+		c.Und("C10-R11", "early returns of the profile codecs", token.NoPos, "only %d early returns found", n)
+	}
 	// ---- R7: the location handed to the access check is not an object shared with the GeoIP cache that later code modifies
 	c.Floor("C10-R7", 1)
 	c.Borrow("C10-R7", runC05, func(o an.Obligation) bool { return o.Rule == "C05-R1" && strings.Contains(o.Key, "locFromReq") })
